@@ -34,6 +34,13 @@ def timerCatchesSk (e : Py.Exn) : Bool :=
   | some (.call _, c, h) => (c.catches e == some true) && (Guard.mayRaise h == Guard.RaiseSet.empty)
   | _ => false
 
+/-- the calls of the loop test (`self._time`, `self.event.wait`) stand in the loop body OUTSIDE its `try` (read off the
+    skeleton): an `Exception` they raise ends the thread -/
+def timerTestUnguarded : Bool :=
+  match timerBody with
+  | some (.seq (.call _) _) => true
+  | _ => false
+
 /-- the poll thread and what it touches -/
 structure PT where
   svc : Svc
@@ -57,6 +64,9 @@ inductive Ev where
   /-- `event.wait(self._time)` timed out: the function runs; `out` is what the stub does, `tps` what the answer
       carries -/
   | tick (out : StubOut) (tps : List RawTp)
+  /-- the loop test itself raises an `Exception`: `_time` with interval 0 (ZeroDivisionError: float modulo) or
+      `Event.wait` with interval inf (OverflowError) — an interval that is not usable -/
+  | testFails
   /-- `LongPoll.shutdown()` → `RepeatedTimer.stop()` -/
   | stop
   /-- `TaskHandler.flush()` (Deep.shutdown calls it BEFORE `poll.shutdown`): every queued apply task is run, the
@@ -74,11 +84,15 @@ def stepPT (s : PT) : Ev → PT
   | .tick out tps =>
     if s.alive && !s.stopped then
       let r := pollOnce s.svc (refusal s.th) out (convertResponse tps)
-      let s' := { s with svc := r.1, issued := s.issued + 1, sent := s.sent ++ [requestHash s.svc] }
+      let s' := if out.sendsRequest
+        then { s with svc := r.1, issued := s.issued + 1, sent := s.sent ++ [requestHash s.svc] }
+        else { s with svc := r.1 }
       match r.2 with
       | none => s'
       | some e => if timerCatchesSk e then s' else { s' with alive := false, died := some e }
     else s
+  | .testFails =>
+    if s.alive && !s.stopped && timerTestUnguarded then { s with alive := false, died := some .exc } else s
   | .stop =>
     if pollShutdownStopsTimer && timerStopSetsEvent then { s with stopped := true, alive := false } else s
   | .flush =>
@@ -90,13 +104,19 @@ def runPT (evs : List Ev) : PT := runPTFrom PT.init evs
 
 /-- the op of the configuration machine (`ConfigSvc.step`) a tick stands for while the handler accepts work -/
 def Ev.toOp : StubOut → List RawTp → Op
+  | .beforeSend e, _ => .pollFail e
   | .raises e, _ => .pollFail e
   | .garbage, _ => .pollFail .exc
   | .answer rt ts h, tps => .poll rt ts h tps
 
-/-- this tick ends the thread, in a state where the handler is open / closed -/
-def Kills (isOpen : Bool) (out : StubOut) (tps : List RawTp) : Prop :=
-  out = .raises .base ∨
-  (isOpen = false ∧ ∃ ts h, out = .answer .update ts h ∧ convertResponse tps ≠ none)
+/-- this tick ends the thread, in a state where the handler is open / closed: a non-`Exception` `BaseException` out of
+    the stub or out of what is evaluated before the send, or an UPDATE answered to a closed handler -/
+def Kills (isOpen : Bool) (out : StubOut) : Prop :=
+  out = .raises .base ∨ out = .beforeSend .base ∨
+  (isOpen = false ∧ ∃ ts h, out = .answer .update ts h)
+
+/-- `IntervalUsable`: the loop test never raises along the history (the interval is neither 0 nor inf; trusted for the
+    theorems that carry it — `c12_interval_unusable_kills` is the witness that it is needed) -/
+def IntervalUsable (evs : List Ev) : Prop := Ev.testFails ∉ evs
 
 end C12Timer
